@@ -79,9 +79,12 @@ func runC17(g Glue, j *Job, res *JobResult) {
 			res.Violations = append(res.Violations, Viol{Class: "solo-result-drifts", At: i,
 				Detail: fmt.Sprintf("task %d alone, after the concurrent run, no longer observes what it observed before it: %s", i, d)})
 		}
+		td := uint64(14695981039346656037)
 		for _, o := range got[i] {
 			dg = digestAdd(dg, o)
+			td = digestAdd(td, o)
 		}
+		res.TaskDigest = append(res.TaskDigest, fmt.Sprintf("%016x", td))
 	}
 	h := uint64(1469598103934665603)
 	sw := 0
